@@ -109,7 +109,8 @@ _G = ["execAll", "execAsyncAll"]
 _A = ["execCall", "execAsyncCall"]
 _E = ["eventCall", "smSend"]
 SRC_TIE = {
-    "C07": ["eventCall", "reservedNames", "injectedNames", "bindExpected", "callableMethod"],
+    "C07": ["eventCall", "reservedNames", "injectedNames", "bindExpected", "callableMethod", "engBase"],
+    "C16": ["engBase"],
     "C13": _E + ["allowedEvents", "decl"],
     "C15": ["decl"],
     "C18": ["diagram"],
@@ -119,20 +120,21 @@ SRC_TIE = {
     "C09": ["visitConnected", "classCheck", "metaInit", "transitionInit", "decl"],
     "C01": ["triggerSync", "triggerAsync"] + _W + _G + ["decl"],
     "C02": ["activateSync", "activateAsync"] + _W + _A + ["registry"],
-    "C03": ["processSync", "processAsync"] + _E,
+    "C03": ["processSync", "processAsync"] + _E + ["engBase"],
     "C04": ["activateSync", "activateAsync", "processSync", "processAsync"] + _A,
-    "C06": ["processSync", "processAsync"],
+    "C06": ["processSync", "processAsync", "engBase"],
     "C05": ["activateSync", "activateAsync", "triggerSync", "triggerAsync", "processSync", "processAsync"] + _W + _G + _A,
     "C08": _W + _G + ["parser"],
-    "C11": ["triggerSync", "triggerAsync", "engineStart", "store", "smInit"],
+    "C11": ["triggerSync", "triggerAsync", "engineStart", "store", "smInit", "engBase"],
     "C14": ["activateSync", "activateAsync"] + _W + _A,
 }
 TIE_MOD = "SMV.Src.Tie"
 TIE_MODS = ["SMV.Src.Tie", "SMV.Src.TieExpr"]
 # further tie modules, built and audited only for the properties whose index names their theorems
-TIE_EXTRA = {"C07": ["SMV.Src.TieBind"], "C09": ["SMV.Src.TieCheck", "SMV.Src.TieDecl"], "C01": ["SMV.Src.TieDecl"],
+TIE_EXTRA = {"C07": ["SMV.Src.TieBind", "SMV.Src.TieEng"], "C03": ["SMV.Src.TieEng"], "C06": ["SMV.Src.TieEng"],
+             "C16": ["SMV.Src.TieEng"], "C09": ["SMV.Src.TieCheck", "SMV.Src.TieDecl"], "C01": ["SMV.Src.TieDecl"],
              "C15": ["SMV.Src.TieDecl"], "C18": ["SMV.Src.TieDiagram"], "C10": ["SMV.Src.TieStore"],
-             "C11": ["SMV.Src.TieStore"], "C12": ["SMV.Src.TieStore", "SMV.Src.TieReg"], "C02": ["SMV.Src.TieReg"], "C13": ["SMV.Src.TieStore", "SMV.Src.TieDecl"],
+             "C11": ["SMV.Src.TieStore", "SMV.Src.TieEng"], "C12": ["SMV.Src.TieStore", "SMV.Src.TieReg"], "C02": ["SMV.Src.TieReg"], "C13": ["SMV.Src.TieStore", "SMV.Src.TieDecl"],
              "C17": ["SMV.Src.TieStore"]}
 
 
